@@ -24,7 +24,7 @@ def tla_set(xs):
     return "{" + ", ".join('"%s"' % x for x in xs) + "}"
 
 
-def cfg_text(kind, reuse, nmods, maxreq, slots=4, f64=FORGE64, f22=FORGE22, f32=FORGE32, policy="none"):
+def cfg_text(kind, reuse, nmods, maxreq, slots=4, f64=FORGE64, f22=FORGE22, f32=FORGE32, policy="none", mutants=False):
     common = """CONSTANTS
   Slots = {%s}
   Devs = {"dA", "dB"}
@@ -35,13 +35,14 @@ def cfg_text(kind, reuse, nmods, maxreq, slots=4, f64=FORGE64, f22=FORGE22, f32=
   Forge22 = %s
   Forge32 = %s
   MaxReq = %d
+  WithMutants = TRUE
 """ % (", ".join(str(i) for i in range(1, slots + 1)), "TRUE" if reuse else "FALSE", nmods, policy,
        tla_set(f64), tla_set(f22), tla_set(f32), maxreq)
     invs = "INVARIANTS TypeOK InOrder ErrorsHaveNoEffect NoTokenNoService FinalKills EffectsNeedProof ProvenOnlyByHonest64 ForgedRefused RedirectNeedsRegistration\n"
     if kind == "trace":
         return "SPECIFICATION TraceSpec\n" + common + invs + "POSTCONDITION TraceAccepted\nCHECK_DEADLOCK FALSE\n"
     if kind == "gen":
-        return "SPECIFICATION GenSpec\n" + common + "INVARIANTS Emit\n"
+        return "SPECIFICATION GenSpec\n" + common + "  Mutants = %s\n" % ("TRUE" if mutants else "FALSE") + "INVARIANTS Emit\n"
     raise ValueError(kind)
 
 
@@ -57,6 +58,8 @@ def to_action(rec):
         return {"a": "inject", "s": rec["s"], "t": rec["t"], "tok": rec["tok"], "b": rec["b"]}
     if k == "orphan":
         return {"a": "orphan", "s": rec["s"], "t": rec["t"], "b": rec["b"]}
+    if k == "mutant":
+        return {"a": "mutant", "s": rec["s"], "t": rec["t"], "b": "http" if rec["b"] == "http" else "wire"}
     if k == "errmsg":
         return {"a": "errmsg", "s": rec["s"], "tok": rec["tok"]}
     if k == "expire":
@@ -66,12 +69,12 @@ def to_action(rec):
     raise Inconclusive("unknown record kind %r" % k)
 
 
-def generate(ctx, reuse, nmods, num, maxreq, seed, f64, f22, f32, policy="none"):
+def generate(ctx, reuse, nmods, num, maxreq, seed, f64, f22, f32, policy="none", mutants=False):
     """TLC-generated behaviours for one world configuration."""
     wd = ctx.sub("gen-%s-%d-%s-%d" % (reuse, nmods, policy, seed))
     cfgp = os.path.join(wd, "Server_Gen.cfg")
     with open(cfgp, "w") as f:
-        f.write(cfg_text("gen", reuse, nmods, maxreq, slots=3, f64=f64, f22=f22, f32=f32, policy=policy))
+        f.write(cfg_text("gen", reuse, nmods, maxreq, slots=3, f64=f64, f22=f22, f32=f32, policy=policy, mutants=mutants))
     r = ctx.tlc("Server_Gen", cfgp, simulate=num, depth=4 * maxreq, workers=1, seed=seed, quiet=True)
     behs = ctx.behaviours(r)
     seen, out = set(), []
